@@ -24,32 +24,11 @@ ACTIONS = ["MStart", "MStop", "MRestart", "MRun"]
 VARIANTS = [("stop_keeps_sub", "nestq", "EnterExitBalanced"),          # as found: stop() left the nested machine running
             ("stuck_parent", "nestq", "SubMachineFirstUntilTerminated"),  # as found: stopped nested machine still consulted
             ("parent_first", "nestq", "SubMachineFirstUntilTerminated"),
-            ("reverse_scan", "flat2", "FirstMatchingRoute"),
-            ("handler_ignored", "flat2", "HandlerBeforeRoutes"),
-            ("enter_first", "flat2", "ExitActionEnterOrder"),
-            ("exit_twice", "flat2", "OncePerTransition"),
+            ("reverse_scan", "flat2q", "FirstMatchingRoute"),
+            ("handler_ignored", "flat2q", "HandlerBeforeRoutes"),
+            ("enter_first", "flat2q", "ExitActionEnterOrder"),
+            ("exit_twice", "flat2q", "OncePerTransition"),
             ("no_reent_guard", "reent_enter", "ReentrantCallsRejected")]
-
-
-# ------------------------------------------------------------------------------------------------------------------
-# model configurations (written into the work directory; the .tla files live in spec/Hfsm)
-# ------------------------------------------------------------------------------------------------------------------
-def write_cfg(ctx, name, variant, family, invariants, view=True, stop_orders="{0, 1}", depth=None, constraint=None):
-    path = ctx.tmp(name + ".cfg")
-    with open(path, "w") as f:
-        f.write("CONSTANTS\n  Variant = \"%s\"\n  StopOrders = %s\n  Family = \"%s\"\n  MaxDepth = 0\n  ProgTab <- MCProgTab\n"
-                % (variant, stop_orders, family))
-        if depth is not None:
-            f.write("  Depth = %d\n" % depth)
-        f.write("SPECIFICATION %s\n" % ("GSpec" if depth is not None else "MCSpec"))
-        if view:
-            f.write("VIEW MCView\n")
-        if constraint:
-            f.write("CONSTRAINT %s\n" % constraint)
-        if invariants:
-            f.write("INVARIANTS " + " ".join(invariants) + "\n")
-        f.write("CHECK_DEADLOCK FALSE\n")
-    return path
 
 
 def par_mc(ctx, jobs):
@@ -98,19 +77,19 @@ def par_mc(ctx, jobs):
 
 def model_check(ctx):
     n = vlib.NCPU
-    fams = ["flat2", "nestq", "reent_enter"] if ctx.quick() else ["flat3", "nest", "reent"]
+    fams = ["flat2q", "nestq", "reent_enter"] if ctx.quick() else ["flat3", "nest", "reent"]
     jobs = []
     for fam in fams:
         jobs.append({"label": "MC_Hfsm/%s (reference semantics, all clauses)" % fam, "expect": "ok",
-                     "cfg": write_cfg(ctx, "mc_" + fam, "ref", fam, CLAUSES + ["NoViolation"]),
+                     "cfg": "MC_%s.cfg" % fam,
                      "workers": max(1, n // len(fams)), "coverage": True, "required_actions": ACTIONS,
-                     "timeout": 300 if ctx.quick() else 2400})
+                     "timeout": 900 if ctx.quick() else 3000})
     par_mc(ctx, jobs)
     # wrong variants: each must violate exactly its clause (only that clause is listed -> non-vacuity of that clause)
     jobs = []
     for var, fam, clause in VARIANTS:
         jobs.append({"label": "MC_Hfsm/%s variant=%s" % (fam, var), "expect": clause,
-                     "cfg": write_cfg(ctx, "var_" + var, var, fam, [clause], stop_orders="{0}"), "workers": 1, "timeout": 300})
+                     "cfg": "MC_var_%s.cfg" % var, "workers": 1, "timeout": 300})
     par_mc(ctx, jobs)
 
 
